@@ -554,8 +554,8 @@ def gen_table(rng, tier):
                                    "key": {"row": rk, "col": cs}, "value": tv}
     yield {"fam": "table", "cols": [{"name": "a", "vals": [[2, 0]], "ct": "int"}], "nr": 1, "key": {"bad": 3},
            "value": {"v": "scalar", "x": [2, 0]}}
-    # the known finding C08/table-setitem-partial-write, three canonical shapes (always present, so that the
-    # KNOWN-FINDING path is exercised on every run)
+    # the defect repaired in ff19998 (a later column refuses after an earlier one was written), three canonical shapes
+    # (always present)
     two = [{"name": "a", "vals": [[2, 0], [2, 1]], "ct": "int"}, {"name": "b", "vals": [[5, 0], [5, 1]], "ct": "str"}]
     yield {"fam": "table.partial", "cols": two, "nr": 2, "key": {"row": {"k": "int", "i": 0}, "col": {"c": "none"}},
            "value": {"v": "list", "items": [{"x": [2, 2]}, {"x": [2, 2]}]}}
@@ -624,9 +624,9 @@ def table_values(rng, lay, tg, rk, m, full, nr):
     res = []
     for tv, partial in out:
         if partial:
-            # the known finding: generated rarely, in its own family
+            # a fault in a later addressed column (the defect repaired in ff19998): its own family, thinned
             _partial_budget[0] += 1
-            if _partial_budget[0] % (1500 if full else 300) != 1:
+            if _partial_budget[0] % (40 if full else 8) != 1:
                 continue
         res.append((tv, partial))
     return res
@@ -1008,14 +1008,7 @@ def snippet(spec):
             "except Exception as e:\n    print('raised', type(e).__name__)\nprint(t.column_names())")
 
 
-def _known_partial(spec, wire, verdict):
-    """table assignment over >= 2 addressed columns that raised after an earlier column had been written, the
-    final state being exactly the one the Lean model of the present code (sequential per-column writes) predicts"""
-    return bool(spec.get("fam", "").startswith("table") and isinstance(verdict.get("model"), dict)
-                and verdict["model"].get("partial_write") is True)
-
-
-KNOWN = {"C08/table-setitem-partial-write": _known_partial}
+KNOWN = {}
 
 LEVEL_TEXT = (
     "Proof (Lean 4, kernel-checked, for all inputs) about an executable model of Vector.__setitem__ that follows the source "
@@ -1033,9 +1026,10 @@ LEVEL_TEXT = (
     "to the live source by decide over tables regenerated on every run (promotion_table over validate_scalar x _PROMOTABLE, "
     "promote_vec_table_agrees, promotable_is_ladders, promotable_transitive, promotable_pairs_convertible). "
     "rename_columns: rename_columns_atomic and rename_columns_ok (apply pass = simulation, no pair skipped). "
-    "Table.__setitem__: table_shape_preserved, table_untouched_columns, and table atomicity only as table_atomic_partial "
-    "(unchanged unless >= 2 columns are addressed and the first accepted) with table_atomic_counterexample proving that the "
-    "present code is NOT atomic on multi-column writes (known finding C08/table-setitem-partial-write). "
+    "Table.__setitem__: table_atomic at full strength (ANY failure, in the first or a later addressed column, leaves every "
+    "column's contents, dtype, name and memo as they were), table_ok_is_column_loop, table_shape_preserved, "
+    "table_untouched_columns; column_loop_alone_not_atomic shows why the roll-back wrapper is needed (the defect this check "
+    "found, recorded first as a known finding and then repaired in /repo ff19998). "
     "Sampled only: that the real code behaves like the model (differential run judged by the Lean spec).")
 LEVEL_NOTE = (
     "Trusted: Lean kernel; axioms propext/Classical.choice/Quot.sound; harness, driver parsing and extract_consts; CPython's "
@@ -1045,5 +1039,4 @@ LEVEL_NOTE = (
     "SerifTypeError or widened; v[[]] = x; values without len() or raising only at their very end; int too large for "
     "float()/complex() during validation; storage shared with another vector. Table cases use distinct lower-case "
     "identifier column names. Not generated: value objects whose __len__ lies or whose second iteration raises (the latter "
-    "makes rename_columns partially rename: reported, not judged). Multi-column table writes in which a later column refuses "
-    "are reported as KNOWN-FINDING, not as violations.")
+    "makes rename_columns partially rename: reported, not judged).")
